@@ -1,6 +1,7 @@
 (* C16 — executable model of valjean/cosette/rlist.py (RList) and
    valjean/cosette/depgraph.py (DepGraph) as they are in /repo after the fix
-   commits 3f34351 + 284a47d (graft of an empty sub-graph) and be7c21f (<= by identity).
+   commits 3f34351 + 284a47d (graft of an empty sub-graph), be7c21f (<= by identity) and
+   the flatten order fix (empty sub-graphs last).
 
    Nodes are identities: a node is its key (Python: id(obj)), a [nat].
    Even keys are plain nodes; the odd key 2r+1 is the graph object held in
@@ -429,10 +430,19 @@ Fixpoint flatten (fuel : nat) (subs : key -> option cgraph) (recurse : bool) (g 
     match filter (fun n => match subs n with Some _ => true | None => false end) (seq (nodes g)) with
     | [] => Ok g
     | ns =>
+      (* empty sub-graphs are grafted last (recursive mode: once no other sub-graph is left) *)
+      let non_empty := filter (fun n => match subs n with
+                                        | Some sub => negb (glen sub =? 0) | None => false end) ns in
+      let empty := filter (fun n => match subs n with
+                                    | Some sub => glen sub =? 0 | None => false end) ns in
+      let todo := match non_empty with
+                  | _ :: _ => if recurse then non_empty else non_empty ++ empty
+                  | [] => empty
+                  end in
       do g' <- foldM (fun g n => match subs n with
                                  | Some sub => graft g n sub
                                  | None => Raise EValue
-                                 end) ns g;
+                                 end) todo g;
       if recurse then flatten f subs recurse g' else Ok g'
     end
   end.
@@ -483,7 +493,7 @@ Definition wstep (w : world) (o : wop) : res world :=
                   | None => Raise EValue
                   end
   | WFlatten r rec => do g <- wget w r;
-                      do g' <- flatten (length w + 2) (sub_of w) rec g; Ok (set_nth r g' w)
+                      do g' <- flatten (length w + length w) (sub_of w) rec g; Ok (set_nth r g' w)
   | WReduce r => do g <- wget w r; do g' <- transitive_reduction g; Ok (set_nth r g' w)
   | WClose r => do g <- wget w r; do g' <- transitive_closure g; Ok (set_nth r g' w)
   end.
